@@ -1800,29 +1800,46 @@ theorem GrammarRel.refl (B : Expr → Expr → Prop) (g : Grammar) : GrammarRel 
   | none => trivial
   | some r => exact ⟨rfl, rfl, .refl _⟩
 
+/-- **Rewriting inside expressions and rule bodies, one direction.**  The grammars differ
+    only by `B`-rewrites inside rule bodies, and every `B`-pair `(a, b)` satisfies "what `a`
+    answers, `b` answers" *in the target grammar*: then what `x` answers in `g`, its rewritten
+    form answers in `g'`. -/
+theorem cong_grammar_fwd {g' : Grammar} {B : Expr → Expr → Prop} (hG : GrammarRel B g g')
+    (hB' : ∀ x x', B x x' → ∀ s r, Conv g' inp x s r → Conv g' inp x' s r)
+    {x x' : Expr} (h : Cong B x x') {s : S0} {r : R0} (hc : Conv g inp x s r) : Conv g' inp x' s r := by
+  have hS : Sim g g' inp (Cong B) := by
+    refine ⟨hG.usets, fusedSkip_rel (hG.rules _), hG.rules _, hG.rules _, ?_⟩
+    intro a b hab
+    rcases Cong.struct hG.rules hab with hb | hst
+    · exact Or.inr ⟨a, Struct.of_refl a (fun c _ => .refl c) (fun n _ _ => hG.rules n), hB' a b hb⟩
+    · exact Or.inr ⟨b, hst, fun _ _ h => h⟩
+  exact hS.conv h hc
+
+/-- … and the other direction: if every `B`-pair `(a, b)` satisfies "what `b` answers, `a`
+    answers" *in the original grammar*, then what the rewritten form answers in the rewritten
+    grammar, the original answers in the original grammar.  (Rewriting rule bodies along
+    equivalences of the original grammar can lose termination — `a = _{ "x" }` ↦ `a = _{ a }` —
+    but it cannot change an answer.) -/
+theorem cong_grammar_bwd {g' : Grammar} {B : Expr → Expr → Prop} (hG : GrammarRel B g g')
+    (hB : ∀ x x', B x x' → ∀ s r, Conv g inp x' s r → Conv g inp x s r)
+    {x x' : Expr} (h : Cong B x x') {s : S0} {r : R0} (hc : Conv g' inp x' s r) : Conv g inp x s r := by
+  have hS : Sim g' g inp (fun a b => Cong B b a) := by
+    refine ⟨hG.usets.symm, fusedSkip_rel (hG.rules _).flip, (hG.rules _).flip, (hG.rules _).flip, ?_⟩
+    intro a b hab
+    rcases Cong.struct hG.rules hab with hb | hst
+    · exact Or.inr ⟨a, Struct.of_refl a (fun c _ => .refl c) (fun n _ _ => (hG.rules n).flip),
+        hB b a hb⟩
+    · exact Or.inr ⟨b, hst.flip, fun _ _ h => h⟩
+  exact hS.conv (Q := fun a b => Cong B b a) h hc
+
 /-- **Rewriting inside expressions and rule bodies.**  If every `B`-pair is an equivalence in
     both grammars, and the grammars differ only by `B`-rewrites inside rule bodies, then
     expressions that differ only by `B`-rewrites have the same meaning in the two grammars. -/
 theorem cong_grammar {g' : Grammar} {B : Expr → Expr → Prop} (hG : GrammarRel B g g')
     (hB : ∀ x x', B x x' → EquivAt g inp x x') (hB' : ∀ x x', B x x' → EquivAt g' inp x x')
-    {x x' : Expr} (h : Cong B x x') (s : S0) (r : R0) : Conv g inp x s r ↔ Conv g' inp x' s r := by
-  constructor
-  · have hS : Sim g g' inp (Cong B) := by
-      refine ⟨hG.usets, fusedSkip_rel (hG.rules _), hG.rules _, hG.rules _, ?_⟩
-      intro a b hab
-      rcases Cong.struct hG.rules hab with hb | hst
-      · exact Or.inr ⟨a, Struct.of_refl a (fun c _ => .refl c) (fun n _ _ => hG.rules n),
-          fun s r => (hB' a b hb s r).1⟩
-      · exact Or.inr ⟨b, hst, fun _ _ h => h⟩
-    exact hS.conv h
-  · have hS : Sim g' g inp (fun a b => Cong B b a) := by
-      refine ⟨hG.usets.symm, fusedSkip_rel (hG.rules _).flip, (hG.rules _).flip, (hG.rules _).flip, ?_⟩
-      intro a b hab
-      rcases Cong.struct hG.rules hab with hb | hst
-      · exact Or.inr ⟨a, Struct.of_refl a (fun c _ => .refl c) (fun n _ _ => (hG.rules n).flip),
-          fun s r => (hB b a hb s r).2⟩
-      · exact Or.inr ⟨b, hst.flip, fun _ _ h => h⟩
-    exact hS.conv (Q := fun a b => Cong B b a) h
+    {x x' : Expr} (h : Cong B x x') (s : S0) (r : R0) : Conv g inp x s r ↔ Conv g' inp x' s r :=
+  ⟨cong_grammar_fwd hG (fun a b hb s r => (hB' a b hb s r).1) h,
+   cong_grammar_bwd hG (fun a b hb s r => (hB a b hb s r).2) h⟩
 
 /-- (7) **congruence** within one grammar: equivalent parts give equivalent wholes -/
 theorem cong_equiv {B : Expr → Expr → Prop} (hB : ∀ x x', B x x' → EquivAt g inp x x')
@@ -2140,6 +2157,14 @@ theorem rewrites_preserve_expr (ht : TriviaTotal g inp) {x x' : Expr} (h : Cong 
 theorem rewrites_preserve_parse {g' : Grammar} (hG : GrammarRel (Rewrite inp) g g')
     (ht : TriviaTotal g inp) (ht' : TriviaTotal g' inp) : GEquiv g g' inp :=
   cong_grammar_parse hG (fun _ _ hb => hb.sound ht) (fun _ _ hb => hb.sound ht')
+
+/-- with total trivia in the *original* grammar only: whatever the rewritten grammar answers,
+    the original answers (the rewritten one might not answer at all) -/
+theorem rewrites_preserve_parse_partial {g' : Grammar} (hG : GrammarRel (Rewrite inp) g g')
+    (ht : TriviaTotal g inp) {start : String} {k : Nat} {r : R0} (h : ParseC g' inp start k r) :
+    ParseC g inp start k r := by
+  rw [parseC_iff none] at h ⊢
+  exact cong_grammar_bwd hG (fun a b hb s r => (hb.sound ht s r).2) (.refl _) h
 
 theorem GEquiv.refl (g : Grammar) (inp : Input) : GEquiv g g inp := fun _ _ _ => Iff.rfl
 theorem GEquiv.symm {g g' : Grammar} (h : GEquiv g g' inp) : GEquiv g' g inp := fun a b c => (h a b c).symm
